@@ -43,7 +43,7 @@ def info(tier):
         "required_cells": [f"k:{k}" for k in KS[tier]] + ["M:expression", "M:directed-family-sweep", "M:deep-copy-of-a-compiled-model", "M:built-from-objects-shared-with-an-earlier-model", "M:shares-a-constraint-object-with-an-earlier-model", "M:expression-with-parameters", "M:lp", "M:nlp", "order:prefix-then-M",
                                                           "order:M-prefix-M", "collision:same-names-other-bounds", "collision:same-parameter-names-other-values",
                                                           "collision:rebuilt-identical", "collision:bare-leaves", "collision:shifted-positions",
-                                                          "collision:same-recipe-other-data-or-structure", "buffers:shared-in-place", "buffers:fresh-arrays"],
+                                                          "collision:same-recipe-other-data-or-structure", "collision:same-declarations-bounds-edited-in-place", "collision:same-skeleton-lower-degree", "M:directed-family", "buffers:shared-in-place", "buffers:fresh-arrays"],
         "assumptions": ["fresh-process twin: same interpreter, PYTHONHASHSEED=0; NumPy arithmetic is deterministic, so equality is demanded to 1e-12",
                         "cache capacities are those of the tree under test (1024 / 4096 / 1024); k=1100 exceeds the compile and degree caches, k=5000 all three"],
     }
@@ -108,6 +108,34 @@ def perturb_node(n, j, views=True):
     return [perturb_node(x, j, views) if isinstance(x, list) else x for x in n]
 
 
+def _has_vars(n):
+    return any(x[0] in ("var", "vec", "mat") for x in A.walk(n))
+
+
+def strip_nonlinear(n):
+    """the same recipe skeleton (same reductions over vector expressions of the same sizes, same names) with the non-linearity taken
+    out: powers and elementary functions dropped, products of two non-constant factors turned into sums.  An earlier model of this
+    shape has the same *kinds* of nodes as M with a lower degree - summaries such as `VectorExpressionSum(size=3)` coincide."""
+    if not isinstance(n, list) or not n or not isinstance(n[0], str):
+        return n
+    k = n[0]
+    if k == "vpow":
+        return strip_nonlinear(n[1])
+    if k in ("vfn", "fn"):
+        return strip_nonlinear(n[2])
+    if k == "bin" and n[1] == "**":
+        return strip_nonlinear(n[2])
+    if k in ("bin", "vbin", "mbin") and n[1] in ("*", "/") and _has_vars(n[2]) and _has_vars(n[3]):
+        return [k, "+", strip_nonlinear(n[2]), strip_nonlinear(n[3])] if n[1] == "*" else strip_nonlinear(n[2])
+    if k in ("vrbin", "mrbin") and n[1] == "/" and _has_vars(n[3]):
+        return strip_nonlinear(n[3])
+    if k == "norm":
+        return ["sum", strip_nonlinear(n[1])]
+    if k == "fro":
+        return ["msum", strip_nonlinear(n[1])]
+    return [strip_nonlinear(x) if isinstance(x, list) else x for x in n]
+
+
 def perturb_decls(decls, j, what):
     """the same names with other structure: bounds, domains, parameter values, the symmetric flag of square matrices
     (what: 0 bounds, 1 symmetric flags, 2 parameter values, 3 flags + parameters, 4 everything)"""
@@ -128,6 +156,44 @@ def perturb_decls(decls, j, what):
 
 def run_perturbed_twin(Mrec, j, pool, rec, what):
     """N_j = M's own recipe with other data / structure, observed or solved exactly as M will be"""
+    if what == 6:
+        # the de-nonlinearised skeleton of M (same reductions, lower degree), classified and solved like M will be
+        rec.cells["collision:same-skeleton-lower-degree"] += 1
+        if "node" in Mrec:
+            case2 = dict(Mrec)
+            case2["node"] = strip_nonlinear(Mrec["node"])
+            touch_expr(case2, pool, rec, rotate=0)
+        else:
+            prob2 = dict(Mrec["prob"])
+            prob2["objective"] = strip_nonlinear(prob2["objective"])
+            prob2["constraints"] = [strip_nonlinear(c) for c in prob2["constraints"]]
+            b = B.Builder(prob2["decls"], buffers=pool)
+            P = b.problem(prob2)
+            from optyx import analysis as AN
+
+            AN.compute_degree(P.objective)
+            P._is_linear_problem()
+            with warnings.catch_warnings():
+                warnings.simplefilter("ignore")
+                P.solve(method="auto", **({} if P._is_linear_problem() else {"maxiter": 2}))
+        return
+    if what == 5:
+        # the very same declarations; after the model is written some element bounds are edited in place (v.lb = ..., v.ub = ...:
+        # fixing / tightening a decision for this model only) and the model is solved
+        rec.cells["collision:same-declarations-bounds-edited-in-place"] += 1
+        if "node" in Mrec:
+            return
+        prob2 = dict(Mrec["prob"])
+        b = B.Builder(prob2["decls"], buffers=pool)
+        P = b.problem(prob2)
+        vs = list(P.variables)
+        for v in (vs[:1] + vs[-1:] + vs[len(vs) // 2: len(vs) // 2 + 1]):
+            lo = v.lb if v.lb is not None else -1.0
+            v.lb, v.ub = lo, lo + 0.25
+        with warnings.catch_warnings():
+            warnings.simplefilter("ignore")
+            P.solve(method=Mrec["method"], **({} if "lp" in Mrec.get("kind", "") else {"maxiter": 3}))
+        return
     if "node" in Mrec:
         case2 = dict(Mrec)
         case2["decls"] = perturb_decls(Mrec["decls"], j, what)
@@ -199,6 +265,13 @@ def collide(rng, decls, k, rec, Vnames=None, Mrec=None, pool=None):
             # the first and the last twin differ from M in everything at once (first-wins and last-wins memos), the others in one respect
             n_twins += 1
             what = 4 if n_twins == 1 or j == k - 1 else (n_twins + k) % 4
+            if j == k - 1:
+                # right before the last twin: the same declarations with bounds edited in place, and M's skeleton with a lower degree
+                for w_ in (6, 5):
+                    try:
+                        run_perturbed_twin(Mrec, j, pool, rec, w_)
+                    except Exception as ex_:
+                        rec.events["perturbed-twin-raised:" + ("bounds-edited" if w_ == 5 else "lower-degree") + ":" + type(ex_).__name__] += 1
             try:
                 run_perturbed_twin(Mrec, j, pool, rec, what)
             except Exception:
@@ -464,13 +537,16 @@ def compare_obs(rec, got, want, show, label, k, case):
             rec.violation(f"{key}-differs-from-fresh-process", {"case": case, "show": show, "when": label, "got": got[key], "want": want[key], "k": k})
 
 
-def run_problem_pair(rec, rng, twin, k, order, kind):
+def run_problem_pair(rec, rng, twin, k, order, kind, family=None):
     if kind == "lp":
-        prob = L.draw_lp(rng, kind="optimal")
+        prob = L.draw_lp(rng, kind="optimal", layout=family)
         method = rng.choice(["auto", "highs-ds"])
     else:
-        prob = NG.draw_convex(rng, sense="min")
-        method = rng.choice(["auto", "SLSQP"])
+        # directed: every constraint is linear, so that the objective alone decides the route "auto" takes
+        prob = NG.draw_convex(rng, sense="min", family=family) if family is None else NG.draw_convex(rng, sense="min", family=family, simple_constraints_only=True, scalars=False)
+        method = rng.choice(["auto", "SLSQP"]) if family is None else "auto"
+    if family is not None:
+        rec.cmp(1, "M:directed-family")
     prob = {kk: prob[kk] for kk in ("decls", "objective", "sense", "constraints")}
     rec.case({"P": prob, "k": k, "o": order, "m": method})
     show = {"decls": A.render_decls(prob["decls"]), "objective": A.render(prob["objective"]), "constraints": [A.render(c) for c in prob["constraints"]][:5],
@@ -488,7 +564,7 @@ def run_problem_pair(rec, rng, twin, k, order, kind):
     rec.cells["buffers:shared-in-place" if pool is not None else "buffers:fresh-arrays"] += 1
     show["buffers"] = "shared" if pool is not None else "fresh"
 
-    if rng.random() < 0.4:
+    if family is None and rng.random() < 0.4:
         # M and an earlier model N assembled from the SAME expression / constraint objects (f built once, used in two Problems):
         # N = the same objective object with the other sense, or plus one more variable that shifts every position
         try:
@@ -673,6 +749,14 @@ def run(ctx, rec):
                 continue
             for order in ("prefix-then-M", "M-prefix-M"):
                 run_expr_pair(rec, rng, twin, 6, order, False, directed=case)
+    # directed problem pairs: every family of the convex generator / every layout of the LP generator as M, solved by "auto" after a
+    # short prefix that ends with M's own declarations under in-place bound edits, M's skeleton with a lower degree, and M's recipe
+    # with other data
+    for di, (kind_, fam_) in enumerate([("nlp", f_) for f_ in NG.FAMILIES] + [("lp", l_) for l_ in L.LAYOUTS]):
+        for oi, order in enumerate(("prefix-then-M", "M-prefix-M")):
+            if ctx.mine(2 * di + oi + 5) and not rec.out_of_time():
+                # prefix-then-M with a prefix of ONE model: the lower-degree skeleton is then the first model of M's shape the process sees
+                run_problem_pair(rec, rng, twin, 1 if oi == 0 else 2 + di % 3, order, kind_, family=fam_)
     n = 0
     k_i = ctx.shard
     while n < N_PAIRS[ctx.tier] and not rec.out_of_time():
